@@ -125,6 +125,7 @@ def run(module, cfg_lines, scratch, *, workers=4, timeout=600, simulate=None, de
 def _parse(out, res):
     cur = None
     in_trace = False
+    pending = None
     for line in out.splitlines():
         if line.startswith('"') and line.endswith('"') and len(line) > 1:
             try:
@@ -136,8 +137,17 @@ def _parse(out, res):
             except ValueError:
                 pass
             continue
-        if line.startswith('<<') and line.endswith('>>'):
-            res.tuples.append(line)
+        if pending is not None:                      # TLC wraps tuples wider than 80 columns over several lines
+            pending += ' ' + line.strip()
+            if _balanced(pending):
+                res.tuples.append(pending)
+                pending = None
+            continue
+        if line.startswith('<<'):
+            if line.endswith('>>') and _balanced(line):
+                res.tuples.append(line)
+            else:
+                pending = line.strip()
             continue
         m = _STATS.search(line)
         if m:
@@ -168,6 +178,28 @@ def _parse(out, res):
             elif cur is not None and line.strip() and not line.startswith('Finished') \
                     and not _STATS.search(line) and not line.startswith('The '):
                 cur['text'].append(line)
+
+
+def _balanced(s):
+    """<< >> balanced outside string literals."""
+    depth, i, n, instr = 0, 0, len(s), False
+    while i < n:
+        ch = s[i]
+        if instr:
+            if ch == '\\':
+                i += 1
+            elif ch == '"':
+                instr = False
+        elif ch == '"':
+            instr = True
+        elif s.startswith('<<', i):
+            depth += 1
+            i += 1
+        elif s.startswith('>>', i):
+            depth -= 1
+            i += 1
+        i += 1
+    return depth == 0 and not instr
 
 
 def parse_tuple(line):
